@@ -2,6 +2,7 @@ package main
 
 import (
 	"fmt"
+	"github.com/wolimst/lib-secs2-hsms-go/pkg/ast"
 	"os"
 	"runtime"
 	"runtime/debug"
@@ -73,9 +74,12 @@ func hsmsWorker(w *iso.Worker) {
 	hsms.VerifHook = func(inputLen int, items int64, exceeded bool) {
 		steps.items, steps.exceeded, steps.seen = items, exceeded, true
 	}
+	ast.VerifCountListWalks = true // hook H4: this worker is single-goroutine
 	for i, j := range w.Jobs {
 		w.Begin(i)
 		in := j.Input
+		ast.VerifListWalks = 0
+		ast.VerifListWalkBudget = listWalkBudget(len(in))
 		if i%4 == 1 && len(in) <= 4096 {
 			// every fourth small input is the front of a large receive buffer that holds stale data:
 			// what is allocated must depend on the length of the slice, not on its capacity
@@ -126,6 +130,10 @@ func hsmsWorker(w *iso.Worker) {
 			}
 		} else {
 			w.Classes["hook-H3-not-reached"]++
+		}
+		w.Max("ast_list_walks_per_len2", float64(ast.VerifListWalks)/float64((len(in)+8)*(len(in)+8)))
+		if ast.VerifListWalks > ast.VerifListWalkBudget {
+			w.Report(iso.Finding{Index: i, Sig: "C07/list-walk-budget-exceeded", What: fmt.Sprintf("more than %d list walks in package ast for a %d-byte input (budget 100000 + 2*len^2)", ast.VerifListWalkBudget, len(in)), Family: j.Family})
 		}
 		if delta > bound {
 			w.Report(iso.Finding{Index: i, Sig: "C07/alloc-superlinear/" + j.Family,
